@@ -680,6 +680,10 @@ func checkCmd(p *propCfg, tier, repo string, writeEvidence bool) int {
 		if c == nil {
 			// could not be reproduced in a fresh process: machinery trouble, not a verdict
 			fmt.Fprintf(os.Stderr, "verifctl: violation %s did not reproduce in a fresh process (%s)\n", k, conf)
+			if rt, _ := cases[0]["race_report"].(string); rt != "" && strings.HasSuffix(k, "?|?") {
+				// a race report without a frame of the code under test: the harness's own trouble
+				fmt.Fprintf(os.Stderr, "verifctl: the report names no function of the code under test:\n%s\n", tail(rt, 1800))
+			}
 			unreproduced++
 			continue
 		}
